@@ -13,6 +13,7 @@ import json
 import random
 
 import common
+from props import c06
 import corpus
 from common import run_cmds, run_tlc, run_tlc_many
 
@@ -62,9 +63,13 @@ def run(chk):
     rs = run_tlc_many([dict(module="Stack", cfg="MC_Stack.cfg", workers=2), dict(module="Total", cfg="MC_Total.cfg", workers=2),
                        dict(module="StdSig", cfg="MC_StdSig.cfg", workers=2),
                        dict(module="MC_Grammar", cfg="MC_Grammar_misc_3.cfg", workers=2, java_opts=("-Xss512m",)),
-                       dict(module="MC_Grammar", cfg="MC_Grammar_keyword_3.cfg", workers=2, java_opts=("-Xss512m",))], parallel=5)
+                       dict(module="MC_Grammar", cfg="MC_Grammar_keyword_3.cfg", workers=2, java_opts=("-Xss512m",)),
+                       dict(module="Lexical", cfg="MC_Lexical_dq.cfg", workers=2, java_opts=("-Xss512m",)),
+                       dict(module="Lexical", cfg="MC_Lexical_sq.cfg", workers=2, java_opts=("-Xss512m",)),
+                       dict(module="Lexical", cfg="MC_Lexical_block.cfg", workers=2, java_opts=("-Xss512m",))], parallel=8)
     for r, what in zip(rs, ["Stack: Bounded, Balanced", "Total: IdleClean; histories", "StdSig: boundary tuples",
-                             "token sequences (misc)", "token sequences (keyword)"]):
+                             "token sequences (misc)", "token sequences (keyword)", "string literals (double quoted): every escape sequence",
+                             "string literals (single quoted)", "text blocks"]):
         chk.add_tlc(r, what)
     histories = rs[1].replay
     tuples = rs[2].replay
@@ -72,6 +77,9 @@ def run(chk):
 
     # ---- (1) arbitrary source texts
     texts = [" ".join(c["ts"]) for c in token_cases]
+    for r in rs[5:8]:           # every literal of the lexical families is a source text too (escapes, surrogates, blocks)
+        for c in r.replay:
+            texts += [src for _, src, _ in c06.lex_sources(c)]
     alphabet = [chr(c) for c in range(32, 127)] + ["\n", "\t", "é", "\U0001F600", "\x00", "\x7f", "|||", "'", '"', "/*", "*/", "//"]
     for _ in range(6000 if thorough else 1500):
         texts.append("".join(rng.choice(alphabet) for _ in range(rng.randint(1, 24))))
